@@ -568,5 +568,60 @@ def r18_11(ctx):
         raise AnalysisError(f"only {n} foldable error tests in SDKRenameChecker.process_line")
 
 
+def r18_12(ctx):
+    """R18.12 only a source statement is checked as one: the pattern SourceChecker.process_line looks for, applied the way the
+    source applies it (search / match, on the line or on a stripped copy), finds `source "Kconfig.foo"`, `    rsource "x"` and
+    `osource"a"` and does not find `        the clock source "XTAL" is used` nor `    default "source" if FOO = "y"` - help
+    texts and strings of a compliant file would be reported and rewritten by --replace."""
+    repo = ctx.repo
+    f = repo.func(f"{MOD}:SourceChecker.process_line")
+    ctx.analysed(f.qual)
+    cls = repo.cls(f"{MOD}:SourceChecker")
+    line_prm = f.node.args.args[1].arg
+
+    def const_of(e):
+        if isinstance(e, ast.Constant) and isinstance(e.value, str):
+            return e.value
+        if isinstance(e, ast.Call) and ast.unparse(e.func) == "re.compile" and e.args:
+            return const_of(e.args[0])
+        if isinstance(e, ast.Attribute) and ast.unparse(e.value) in ("self", "SourceChecker", "cls"):
+            for b in cls.body:
+                if isinstance(b, ast.Assign) and len(b.targets) == 1 and ast.unparse(b.targets[0]) == e.attr:
+                    return const_of(b.value)
+        if isinstance(e, ast.Name):
+            for b in list(ast.walk(f.node)) + list(f.module.tree.body):
+                if isinstance(b, ast.Assign) and len(b.targets) == 1 and ast.unparse(b.targets[0]) == e.id:
+                    return const_of(b.value)
+        return None
+    site = None
+    for n in ast.walk(f.node):
+        if isinstance(n, ast.Call) and isinstance(n.func, ast.Attribute) and n.func.attr in ("search", "match", "fullmatch"):
+            if ast.unparse(n.func.value) == "re" and len(n.args) >= 2:
+                pat, arg = const_of(n.args[0]), n.args[1]
+            else:
+                pat, arg = const_of(n.func.value), (n.args[0] if n.args else None)
+            if pat is not None and arg is not None and "source" in pat:
+                site = (n, n.func.attr, pat, arg)
+                break
+    if site is None:
+        raise AnchorError("SourceChecker.process_line: the source-statement pattern was not found")
+    call, how, pat, arg = site
+    at = ast.unparse(arg)
+    prep = {line_prm: lambda s: s, f"{line_prm}.lstrip()": lambda s: s.lstrip(), f"{line_prm}.strip()": lambda s: s.strip()}.get(at)
+    if prep is None:
+        raise AnalysisError(f"SourceChecker.process_line: the pattern is applied to `{at}`")
+    try:
+        rx = re.compile(pat)
+    except re.error as e:
+        raise AnalysisError(f"source pattern does not compile: {e}")
+    for w, want in (('source "Kconfig.foo"\n', True), ('    rsource "x"\n', True), ('osource"a"\n', True),
+                    ('        the clock source "XTAL" is used\n', False), ('    default "source" if FOO = "y"\n', False)):
+        construct = f"SourceChecker.process_line/`{w.strip()}` is {'a' if want else 'no'} source statement"
+        got = getattr(rx, how)(prep(w)) is not None
+        (ctx.ok(construct, f.loc(call)) if got == want else
+         ctx.bad(construct, f"`{pat}` applied with {how}() to `{at}` {'finds' if got else 'does not find'} it: " +
+                 ("a line of help text / a string is checked as a source statement, reported and rewritten by --replace" if not want else "the statement is no longer checked"), f.loc(call)))
+
+
 def rules():
-    return [("R18.11", r18_11, 4), ("R18.10", r18_10, 7), ("R18.9", r18_9, 2), ("R18.8", r18_8, 1), ("R18.7", r18_7, 3), ("R18.1", r18_1, 3), ("R18.2", r18_2, 4), ("R18.3", r18_3, 3), ("R18.4", r18_4, 2), ("R18.5", r18_5, 4), ("R18.6", r18_6, 4)]
+    return [("R18.12", r18_12, 5), ("R18.11", r18_11, 4), ("R18.10", r18_10, 7), ("R18.9", r18_9, 2), ("R18.8", r18_8, 1), ("R18.7", r18_7, 3), ("R18.1", r18_1, 3), ("R18.2", r18_2, 4), ("R18.3", r18_3, 3), ("R18.4", r18_4, 2), ("R18.5", r18_5, 4), ("R18.6", r18_6, 4)]
